@@ -4,23 +4,9 @@
    stored records stay related by the abstraction.  Spec-level sanity lemmas. *)
 From ZV Require Import Common.Bytes Common.BytesFacts Data.Consts Data.Base Data.BaseFacts Data.MapEq Data.Map Data.MapZ Data.MapL Data.MapK
   Data.Spec Data.SpecZ Data.SpecL Data.SpecK Data.Run Data.RepColl Data.RepHS Data.RepL Data.RepZ Data.RepState
-  Data.RefHS Data.RefCmd Data.RefK Data.RepRead Data.RefL.
+  Data.RefHS Data.RefCmd Data.RefK Data.RepRead Data.RefL Data.RefZ.
 From Coq Require Import Lia ZifyBool.
 Open Scope Z_scope.
-
-(* the commands whose refinement is proved *)
-Definition covered (c : cmd) : bool :=
-  match c with
-  | CHset _ _ _ _ | CHmset _ _ | CHdel _ _ | CHincrby _ _ _ | CHclear _
-  | QHlen _ | QHget _ _ | QHexists _ _ | QHmget _ _ | QHgetall _ | QHkeys _ | QHvals _ | QHkeyexist _
-  | CSadd _ _ | CSrem _ _ | CSpop _ _ | CSclear _
-  | QScard _ | QSismember _ _ | QSmembers _ | QSrandmember _ _ | QSkeyexist _ => true
-  | CL _ (LCpush _ _) | CL _ (LCpop _) | CL _ (LCset _ _) | CL _ (LCtrim _ _) | CL _ LCclear | CL _ LCinvalid => true
-  | QL _ _ => true
-  | CK (KCsetrange _ off _) => 0 <=? off
-  | CK _ | QK _ => true
-  | _ => false
-  end.
 
 Section Seq.
   Variable compact : bool.
@@ -48,6 +34,7 @@ Section Seq.
     ss_rep : RepS compact clock ms;
     ss_hash : rel2 (@sim bytes) (m_hash ms) (s_hash ss);
     ss_set : rel2 (@sim unit) (m_set ms) (s_set ss);
+    ss_zset : rel2 simz (m_zset ms) (s_zset ss);
     ss_list : rel2 (fun l a => abs_l l = a) (m_list ms) (s_list ss);
     ss_kv : m_kv ms = s_kv ss;
     ss_kvnd : NoDup (map fst (m_kv ms)) }.
@@ -56,22 +43,24 @@ Section Seq.
   Proof. unfold sim, abs_c. cbn. apply meq_refl. constructor. Qed.
 
   Lemma simS_init : simS 0 m_init s_init.
-  Proof. constructor; cbn; [apply RepS_init|constructor|constructor|constructor|reflexivity|constructor]. Qed.
+  Proof. constructor; cbn; [apply RepS_init|constructor|constructor|constructor|constructor|reflexivity|constructor]. Qed.
 
   (* a push must not use up the 2^61 sequence numbers on its side of the list *)
   Definition admissible (ms : mstate) (c : cmd) : Prop :=
     match c with
     | CL key (LCpush tail vs) => push_in_bounds (alook empty_lcoll key (m_list ms)) tail (Z.of_nat (length vs))
+    | CZ key (ZCremrangebyrank _ _) | QZ key (ZQrange _ _ _ _) | QZ key (ZQrangebyscore _ _ _ _ _ _) | QZ key (ZQrangebylex _ _ _ _ _ _) =>
+        zsize (alook empty_zcoll key (m_zset ms)) <= max_batch_num          (* below the 5000-element bulk limit *)
     | _ => True
     end.
 
   (* one covered command: equal replies, related successor states *)
-  Theorem step_ref clock ts c ms ss : simS clock ms ss -> 0 <= clock < ts -> covered c = true -> admissible ms c ->
+  Theorem step_ref clock ts c ms ss : simS clock ms ss -> 0 <= clock < ts -> admissible ms c ->
     snd (map_step compact ts c ms) = snd (spec_step c ss) /\
     simS ts (fst (map_step compact ts c ms)) (fst (spec_step c ss)).
   Proof.
-    intros S L Cv Adm. pose proof (map_step_rep compact clock ts c ms (ss_rep _ _ _ S) L) as Rn.
-    destruct S as [Rs Sh Sst Sl Skv Snd].
+    intros S L Adm. pose proof (map_step_rep compact clock ts c ms (ss_rep _ _ _ S) L) as Rn.
+    destruct S as [Rs Sh Sst Sz Sl Skv Snd].
     pose proof (rs_hash _ _ _ Rs) as RH. pose proof (rs_set _ _ _ Rs) as RSt.
     assert (LH : forall key, RepC compact clock (alook empty_coll key (m_hash ms)) /\
                              sim (alook empty_coll key (m_hash ms)) (alook [] key (s_hash ss))).
@@ -90,7 +79,7 @@ Section Seq.
                        (fst (let '(m, r) := aupd [] key sf (s_hash ss) in (Build_sstate m (s_set ss) (s_zset ss) (s_list ss) (s_kv ss), r)))).
     { intros key mf sf [W1 W2] Rn'. unfold aupd in *.
       destruct (mf (alook empty_coll key (m_hash ms))) as [c' r1]. destruct (sf (alook [] key (s_hash ss))) as [a' r2].
-      cbn [fst snd] in *. split; [exact W1|]. constructor; cbn [m_hash m_set m_list m_kv s_hash s_set s_list s_kv]; auto.
+      cbn [fst snd] in *. split; [exact W1|]. constructor; cbn [m_hash m_set m_zset m_list m_kv s_hash s_set s_zset s_list s_kv]; auto.
       apply rel2_aput; assumption. }
     assert (SW : forall key (mf : scoll -> scoll * reply) (sf : sset -> sset * reply),
                swref mf sf (alook empty_coll key (m_set ms)) (alook [] key (s_set ss)) ->
@@ -102,11 +91,11 @@ Section Seq.
                        (fst (let '(m, r) := aupd [] key sf (s_set ss) in (Build_sstate (s_hash ss) m (s_zset ss) (s_list ss) (s_kv ss), r)))).
     { intros key mf sf [W1 W2] Rn'. unfold aupd in *.
       destruct (mf (alook empty_coll key (m_set ms))) as [c' r1]. destruct (sf (alook [] key (s_set ss))) as [a' r2].
-      cbn [fst snd] in *. split; [exact W1|]. constructor; cbn [m_hash m_set m_list m_kv s_hash s_set s_list s_kv]; auto.
+      cbn [fst snd] in *. split; [exact W1|]. constructor; cbn [m_hash m_set m_zset m_list m_kv s_hash s_set s_zset s_list s_kv]; auto.
       apply rel2_aput; assumption. }
     assert (Keep : simS ts ms ss).
     { constructor; auto. eapply RepS_mono; [|exact Rs]. lia. }
-    destruct c; cbn [covered] in Cv; try discriminate; cbn [map_step spec_step] in *.
+    destruct c; cbn [map_step spec_step] in *.
     - destruct (LH key) as [R1 S1]. apply HW; [apply (hset_ref compact clock); auto|exact Rn].
     - destruct (LH key) as [R1 S1]. apply HW; [apply (hmset_ref compact clock); auto|exact Rn].
     - destruct (LH key) as [R1 S1]. apply HW; [|exact Rn].
@@ -131,13 +120,49 @@ Section Seq.
     - destruct (LS key) as [R1 S1]. destruct (set_reads_ref compact clock key _ _ R1 S1) as (_ & _ & a & _). cbn [fst snd]. split; [exact a|exact Keep].
     - destruct (LS key) as [R1 S1]. destruct (set_reads_ref compact clock key _ _ R1 S1) as (_ & _ & _ & a & _). cbn [fst snd]. split; [apply a|exact Keep].
     - destruct (LS key) as [R1 S1]. destruct (set_reads_ref compact clock key _ _ R1 S1) as (_ & _ & _ & _ & a). cbn [fst snd]. split; [exact a|exact Keep].
+    - (* zset write *)
+      assert (RZ' : RepZ compact clock (alook empty_zcoll key (m_zset ms))) by (apply alook_rec; [apply RepZ_empty|apply (rs_zset _ _ _ Rs)]).
+      assert (SZ : simz (alook empty_zcoll key (m_zset ms)) (alook [] key (s_zset ss))).
+      { apply (rel2_alook simz); [apply (@sim_empty score)|exact Sz]. }
+      assert (W : zref (MapZ.zstep compact ts key c) (SpecZ.zstep key c) (alook empty_zcoll key (m_zset ms)) (alook [] key (s_zset ss))).
+      { destruct c.
+        - apply (zadd_ref compact clock); auto.
+        - apply (zincrby_ref compact clock); auto.
+        - apply (zrem_ref compact clock); auto.
+        - apply (zremrangebyrank_ref compact clock); auto.
+        - apply (zremrangebyscore_ref compact clock); auto.
+        - apply (zremrangebylex_ref compact clock); auto.
+        - apply (zclear_ref compact clock); auto.
+        - split; [reflexivity|exact SZ]. }
+      destruct W as [W1 W2]. unfold aupd in *.
+      destruct (MapZ.zstep compact ts key c (alook empty_zcoll key (m_zset ms))) as [z' r1].
+      destruct (SpecZ.zstep key c (alook [] key (s_zset ss))) as [a' r2]. cbn [fst snd] in *.
+      split; [exact W1|]. constructor; cbn [m_hash m_set m_zset m_list m_kv s_hash s_set s_zset s_list s_kv]; auto.
+      apply rel2_aput; assumption.
+    - (* zset read *)
+      assert (RZ' : RepZ compact clock (alook empty_zcoll key (m_zset ms))) by (apply alook_rec; [apply RepZ_empty|apply (rs_zset _ _ _ Rs)]).
+      assert (SZ : simz (alook empty_zcoll key (m_zset ms)) (alook [] key (s_zset ss))).
+      { apply (rel2_alook simz); [apply (@sim_empty score)|exact Sz]. }
+      cbn [fst snd]. split; [|exact Keep].
+      destruct (zpoint_reads_ref compact clock key _ _ RZ' SZ) as (a1 & a2 & a3).
+      destruct q.
+      + exact a1.
+      + exact a2.
+      + apply a3.
+      + apply (zrange_ref compact clock); auto.
+      + apply (zrangebyscore_ref compact clock); auto.
+      + apply (zrangebylex_ref compact clock); auto.
+      + apply (zcount_ref compact clock); auto.
+      + apply (zlexcount_ref compact clock); auto.
+      + apply (zrank_ref compact clock); auto.
+      + reflexivity.
     - (* list write *)
       assert (RL : RepL compact clock (alook empty_lcoll key (m_list ms))) by (apply alook_rec; [apply RepL_empty|apply (rs_list _ _ _ Rs)]).
       assert (AB : abs_l (alook empty_lcoll key (m_list ms)) = alook [] key (s_list ss)).
       { apply (rel2_alook (fun l a => abs_l l = a)); [reflexivity|exact Sl]. }
       assert (W : snd (MapL.lstep compact ts key c (alook empty_lcoll key (m_list ms))) = snd (SpecL.lstep key c (alook [] key (s_list ss))) /\
                   abs_l (fst (MapL.lstep compact ts key c (alook empty_lcoll key (m_list ms)))) = fst (SpecL.lstep key c (alook [] key (s_list ss)))).
-      { rewrite <- AB. destruct c; try discriminate.
+      { rewrite <- AB. destruct c.
         - apply (lpush_ref compact clock); auto.
         - apply (lpop_ref compact clock); auto.
         - apply (lset_ref compact clock); auto.
@@ -147,7 +172,7 @@ Section Seq.
       destruct W as [W1 W2]. unfold aupd in *.
       destruct (MapL.lstep compact ts key c (alook empty_lcoll key (m_list ms))) as [l' r1].
       destruct (SpecL.lstep key c (alook [] key (s_list ss))) as [a' r2]. cbn [fst snd] in *.
-      split; [exact W1|]. constructor; cbn [m_hash m_set m_list m_kv s_hash s_set s_list s_kv]; auto.
+      split; [exact W1|]. constructor; cbn [m_hash m_set m_zset m_list m_kv s_hash s_set s_zset s_list s_kv]; auto.
       apply rel2_aput; assumption.
     - (* list read *)
       assert (RL : RepL compact clock (alook empty_lcoll key (m_list ms))) by (apply alook_rec; [apply RepL_empty|apply (rs_list _ _ _ Rs)]).
@@ -158,10 +183,10 @@ Section Seq.
       destruct q; [exact a1|exact a2|apply (lrange_ref compact clock); exact RL|apply a3|reflexivity].
     - (* kv write *)
       assert (KR : MapK.kstep ts c (m_kv ms) = SpecK.kstep c (s_kv ss)).
-      { rewrite <- Skv. apply kstep_ref; [exact Snd|]. destruct c; auto. apply Z.leb_le; exact Cv. }
+      { rewrite <- Skv. apply kstep_ref; exact Snd. }
       rewrite KR. assert (KN : NoDup (map fst (fst (SpecK.kstep c (s_kv ss))))) by (apply kstep_nodup; rewrite <- Skv; exact Snd).
       rewrite KR in Rn. destruct (SpecK.kstep c (s_kv ss)) as [m r]. cbn [fst snd] in *. split; [reflexivity|].
-      constructor; cbn [m_hash m_set m_list m_kv s_hash s_set s_list s_kv]; auto.
+      constructor; cbn [m_hash m_set m_zset m_list m_kv s_hash s_set s_zset s_list s_kv]; auto.
     - (* kv read *)
       cbn [fst snd]. rewrite Skv. split; [apply kquery_ref|exact Keep].
   Qed.
@@ -186,22 +211,22 @@ Section Seq.
     end.
 
   Theorem trace_ref cs : forall clock ms ss, simS clock ms ss -> 0 <= clock -> increasing clock cs ->
-    forallb (fun tc => covered (snd tc)) cs = true -> adm_run cs ms ->
+    adm_run cs ms ->
     map_trace cs ms = spec_trace cs ss /\ simS (last_ts clock cs) (map_run compact cs ms) (spec_run cs ss).
   Proof.
-    induction cs as [|[ts c] r IH]; intros clock ms ss S L I Cv Ad; cbn [map_trace spec_trace map_run spec_run fold_left last_ts].
+    induction cs as [|[ts c] r IH]; intros clock ms ss S L I Ad; cbn [map_trace spec_trace map_run spec_run fold_left last_ts].
     - split; [reflexivity|exact S].
-    - destruct I as [I1 I2]. cbn [forallb snd] in Cv. apply andb_true_iff in Cv. destruct Cv as [C1 C2].
+    - destruct I as [I1 I2].
       cbn [adm_run] in Ad. destruct Ad as [A1 A2].
-      destruct (step_ref clock ts c ms ss S ltac:(lia) C1 A1) as [E1 S1]. cbn [fst snd].
+      destruct (step_ref clock ts c ms ss S ltac:(lia) A1) as [E1 S1]. cbn [fst snd].
       destruct (map_step compact ts c ms) as [ms' r1]. destruct (spec_step c ss) as [ss' r2]. cbn [fst snd] in *.
-      destruct (IH ts ms' ss' S1 ltac:(lia) I2 C2 A2) as [E2 S2]. split; [rewrite E1, E2; reflexivity|exact S2].
+      destruct (IH ts ms' ss' S1 ltac:(lia) I2 A2) as [E2 S2]. split; [rewrite E1, E2; reflexivity|exact S2].
   Qed.
 End Seq.
 
-Theorem khs_all_sequences compact cs : increasing 0 cs -> forallb (fun tc => covered (snd tc)) cs = true ->
-  adm_run compact cs m_init -> map_trace compact cs m_init = spec_trace cs s_init.
-Proof. intros I Cv Ad. apply (trace_ref compact cs 0 m_init s_init); [apply simS_init|lia|exact I|exact Cv|exact Ad]. Qed.
+Theorem all_sequences_ref compact cs : increasing 0 cs -> adm_run compact cs m_init ->
+  map_trace compact cs m_init = spec_trace cs s_init.
+Proof. intros I Ad. apply (trace_ref compact cs 0 m_init s_init); [apply simS_init|lia|exact I|exact Ad]. Qed.
 
 (* ---------- Spec-level sanity lemmas (guards against a wrong reference model) ---------- *)
 (* SADD counts a repeated member once *)
